@@ -29,7 +29,7 @@ def _keyform(k):
     return (t.__name__, repr(k))
 
 
-def canon(x, ordered=True, obj_hook=None):
+def canon(x, ordered=True, obj_hook=None, identity_free=None):
     ids = {}
     keep = []
 
@@ -42,6 +42,10 @@ def canon(x, ordered=True, obj_hook=None):
         oid = id(o)
         if oid in ids:
             return ('ref', ids[oid])
+        if identity_free is not None and identity_free(o):
+            # compared by content only (used to express a known finding precisely, never by a deciding check)
+            keep.append(o)
+            return obj_hook(o, walk, -1)
         if t is tuple:
             # tuples are immutable: identity is not observable through construction order, compare by content
             return ('tuple',) + tuple(walk(i) for i in o)
